@@ -44,6 +44,16 @@ type World struct {
 	Cfg     Cfg
 	V       *revocation.CertRevocationValidator
 	Hooks   *HookState
+	// WorkDirAs: how the configuration spells work_dir ("" = WorkDir itself, a clean absolute path)
+	WorkDirAs string
+}
+
+// ConfiguredWorkDir is the work_dir string of the configuration.
+func (w *World) ConfiguredWorkDir() string {
+	if w.WorkDirAs != "" {
+		return w.WorkDirAs
+	}
+	return w.WorkDir
 }
 
 // ---------------------------------------------------------------------------------------------
@@ -116,6 +126,9 @@ var (
 	passMu    sync.Mutex
 	passExits = map[any]int{}
 )
+
+// every process that uses a World counts returned passes from the start, also when no check installs a handler of its own
+func init() { SetHandler(nil) }
 
 func passesReturned(checker any) int {
 	passMu.Lock()
@@ -307,7 +320,7 @@ func (w *World) JSON() []byte {
 		m["mode"] = w.Cfg.Mode
 	}
 	if !w.Cfg.NoCRLCfg {
-		c := map[string]any{"work_dir": w.WorkDir}
+		c := map[string]any{"work_dir": w.ConfiguredWorkDir()}
 		if w.Cfg.Storage != "" {
 			c["storage_type"] = w.Cfg.Storage
 		}
